@@ -161,7 +161,7 @@ def run(ctx):
     dbname = roles.database_struct(F)["name"]
     ledger = {r["key"]: r for r in ctx.table("panic_ledger.json")["rows"]}
     used = {}
-    roots = [x.id for x in sb] + [f.id for f in F.fns.values() if (f.j.get("trait") or "") == "serde::Deserialize" and "api::types" in f.name]
+    roots = [x.id for x in sb] + [f.id for f in F.fns.values() if (f.j.get("trait") or "").endswith("::Deserialize") and "api::types" in f.name]
     decode_path = CG.reachable_from(roots)
     R.floor("decode_path_bodies", len(decode_path), 5)
     for fid in sorted(decode_path):
